@@ -227,4 +227,22 @@ example : Shows [(⟨0, true, 0, fun _ => 0⟩, ⟨pgnClaim, 5, [0xA1, 0, 0, 0, 
       exact ⟨_, _, rfl, rfl, rfl⟩,
    rfl, rfl, rfl, by intro em hem; cases hem⟩
 
+/-- **C18, request pacing rule.** `ReadyForRequest…` of kind X (product information / configuration information /
+PGN lists) holds iff X is still wanted (not loaded, resp. one of the two lists missing), fewer than 4 requests were
+made, none was made yet or the 1000 ms period has elapsed since the last one (`N2kHasElapsed` on the 32-bit
+clock), and the entry is older than the 1000 ms first-request delay. The value of the time stamp plays no role
+while the counter is 0. (The three `for` loops of `HandleOther` send a request exactly for the first such entry -
+`reqLoop`; timing properties over clock wrap-around are C13's.) -/
+theorem C18_request_due (e : Env) (k : Kind) (d : Device) :
+    ready e k d = true ↔
+      ((match k with
+        | .prod => d.prodLoaded = false
+        | .conf => d.confLoaded = false
+        | .pgns => d.tx = none ∨ d.rx = none) ∧
+       nRequested k d < 4 ∧
+       (nRequested k d = 0 ∨ N2k.Time.hasElapsed (lastRequested k d) 1000 (N2k.Time.millis32 e.now) = true) ∧
+       N2k.Time.hasElapsed d.createTime 1000 (N2k.Time.millis32 e.now) = true) := by
+  cases k <;>
+    simp [ready, should, nRequested, lastRequested, Option.isNone_iff_eq_none, and_assoc]
+
 end N2k.C18
